@@ -35,13 +35,10 @@ func printLoadFile(code []ins, start int, dialect, m int, r *rand.Rand, signed b
 				b -= m
 			}
 		}
-		// a signed zero, and a field of 0 printed as -M, are signed spellings of 0
+		// a signed zero is a signed spelling of 0 (-M is not used: a reader may refuse literals outside (-M, M), allowed/V6)
 		num := func(v int) string {
-			if v == 0 && r != nil && r.Intn(6) == 0 {
-				if r.Intn(2) == 0 {
-					return "-0"
-				}
-				return fmt.Sprint(-m)
+			if v == 0 && r != nil && r.Intn(5) == 0 {
+				return "-0"
 			}
 			return fmt.Sprint(v)
 		}
